@@ -41,6 +41,16 @@ Theorem C18_release_exactly_once_after_finalize :
 Proof. exact release_exactly_once_after_finalize. Qed.
 Print Assumptions C18_release_exactly_once_after_finalize.
 
+(* ... also when a finaliser of the current batch of pending work terminates the context (event ERunPFKill j:
+   the (j+1)-th finaliser of the batch raises a context termination; the panic unwinds to PopContext) *)
+Theorem C18_release_exactly_once_when_finalizer_kills :
+  forall es w w' j k,
+  wrun world0 es = Some w -> wstep w (ERunPFKill j) = Some w' ->
+  wantsR k (tr w') = true ->
+  relc k (tr w') = 1%nat /\ finAfterRel k (epoch k (tr w')) = false.
+Proof. exact release_exactly_once_when_finalizer_kills. Qed.
+Print Assumptions C18_release_exactly_once_when_finalizer_kills.
+
 Theorem C18_close_order_reverse_mark :
   forall os,
   let p := fold_left (fun q o => fst (step q o)) os pool0 in
